@@ -230,6 +230,8 @@ def check_cursor_use(ctx, modules, floor=1, rule='R-CURSOR/used'):
     for fi in ctx.db.iter_functions():
         if fi.module.short in modules:
             n += CU.check_cursors(ctx, fi, rule)
+            CU.check_bookkeeping(ctx, fi)
+            CU.check_advance(ctx, fi)
     if n < floor:
         raise AnalysisError(f'only {n} write cursors found in {modules}')
 
